@@ -37,8 +37,8 @@ HEADER_TYPE = {"rpms": "productmd.rpms", "modules": "productmd.modules", "extra"
 
 def plan(tier):
     if tier == "thorough":
-        return {"shards": 16, "params": {"histories": 20000, "budget_s": 1500}, "timeout_s": 3000}
-    return {"shards": 4, "params": {"histories": 900, "budget_s": 300}, "timeout_s": 900}
+        return {"shards": 16, "params": {"histories": 20000, "budget_s": 1500}, "timeout_s": 3000, "ascii_locale_shards": [5, 11]}
+    return {"shards": 4, "ascii_locale_shards": [3], "params": {"histories": 900, "budget_s": 300}, "timeout_s": 900}
 
 
 def gen_case(rng, kind, n=None):
